@@ -148,6 +148,10 @@ def expand(st, customs, ranks=None):
         return [A('set_session_factory#0', ('sessf',), writes=[('sessf', '')])]
     if k == 'reqf':
         return [A('set_request_factory#0', ('reqf',), writes=[('reqf', '')])]
+    if k == 'csrfstore':
+        return [A('set_csrf_storage_policy#0', ('csrfstore',), writes=[('csrfstore', '')])]
+    if k == 'respf':
+        return [A('set_response_factory#0', ('respf',), writes=[('respf', '')])]
     if k == 'reqm':
         site = 'add_request_method#1' if st.get('mode') in ('property', 'reify') else 'add_request_method#2'
         return [A(site, ('reqext', st['name']), writes=[('reqext', st['name'])])]
@@ -182,7 +186,8 @@ DIRECTIVES = ['add_subscriber', 'add_subscriber_predicate', 'add_response_adapte
               'static_info_add_cache_buster']
 KIND_DIRECTIVE = {'acceptorder': 'add_accept_view_order', 'route': 'add_route', 'renderer': 'add_renderer', 'policy': 'set_security_policy',
                   'defperm': 'set_default_permission', 'csrf': 'set_default_csrf_options', 'rootf': 'set_root_factory',
-                  'sessf': 'set_session_factory', 'reqf': 'set_request_factory', 'reqm': 'add_request_method',
+                  'sessf': 'set_session_factory', 'reqf': 'set_request_factory',
+                  'csrfstore': 'set_csrf_storage_policy', 'respf': 'set_response_factory', 'reqm': 'add_request_method',
                   'static': 'add_static_view', 'vpred': 'add_view_predicate', 'rpred': 'add_route_predicate',
                   'deriver': 'add_view_deriver', 'sub': 'add_subscriber', 'tween': 'add_tween', 'mapper': 'set_view_mapper'}
 VIEW_DIRECTIVE = {'view': 'add_view', 'notfound': 'add_notfound_view', 'forbidden': 'add_forbidden_view',
@@ -302,7 +307,7 @@ def to_wire(case):
     return [ws, [num[k] for k in keys], vs, dirs]
 
 
-OBSERVED = ('predsc', 'deriversc', 'tweensc', 'acceptc', 'accept', 'routes', 'riface', 'view', 'renderer', 'policy', 'mapper', 'defperm', 'csrfopts', 'rootf', 'sessf', 'reqf', 'reqext',
+OBSERVED = ('csrfstore', 'respf', 'predsc', 'deriversc', 'tweensc', 'acceptc', 'accept', 'routes', 'riface', 'view', 'renderer', 'policy', 'mapper', 'defperm', 'csrfopts', 'rootf', 'sessf', 'reqf', 'reqext',
             'preds', 'derivers', 'subs', 'tweens', 'static')
 
 
@@ -933,6 +938,13 @@ def targeted(broken, disagreements, rng):
          {'rootprefix': 'api/'}),
         ([dict(k='static', name='st1'), dict(k='view', name='x')], {'rootprefix': 'api/'}),
         ([dict(k='route', name='r0', pattern='/q', prefix=1), dict(k='view', name='', route='r0')], {'rootprefix': '/api/'}),
+        # default-phase writers that requests read: a CSRF-checked view / a rendered view declared BEFORE them
+        [dict(k='view', name='x', csrf=True), dict(k='csrfstore'), dict(k='sessf'), dict(k='view', name='y', csrf=True)],
+        [dict(k='csrf'), dict(k='view', name='x'), dict(k='csrfstore'), dict(k='sessf')],
+        [dict(k='view', name='x', renderer='string', ret='dict'), dict(k='respf'), dict(k='view', name='y', renderer='json', ret='dict')],
+        # a view derived at the statement with a renderer name: top level vs inside includes
+        [dict(k='view', kind='notfound', aslash=True, renderer='json', ret='dict'), dict(k='view', name='x')],
+        [dict(k='view', kind='notfound', aslash=True, renderer='tagr', ret='dict'), dict(k='renderer', name='tagr')],
         # a route declared before the root factory its requests are answered with
         [dict(k='route', name='r0', pattern='/q'), dict(k='rootf', ctx='A'), dict(k='view', name='', route='r0', ctx='A')],
     ]
